@@ -32,8 +32,19 @@ pub(in crate::layer) fn read_layer<M: DeserializeOwned, P: AsRef<Path>>(
         // compared to all other combinations of launch, build and cache. It's the only case where
         // a cache = false layer restores some of its data between builds.
         //
-        // To normalize, we remove the layer TOML file and treat the layer as non-existent.
+        // To normalize, we remove the layer TOML file and treat the layer as non-existent. The
+        // layer's SBOM files are restored alongside the metadata and would otherwise be attributed
+        // to whatever is written to a layer of the same name later on, so they are removed too.
         fs::remove_file(&layer_toml_path)?;
+
+        for format in SBOM_FORMATS {
+            default_on_not_found(fs::remove_file(cnb_sbom_path(
+                format,
+                layers_dir.as_ref(),
+                layer_name,
+            )))?;
+        }
+
         return Ok(None);
     }
 
